@@ -1,8 +1,71 @@
 import Req.Driver.Proto
+import Req.C02.RespSM
 /-! Driver lanes of C02. -/
 namespace Req.Driver.L.C02
-open Req.Proto
+open Req.Proto Req.C02
 
-def lanes : List (String × (List String → String)) := []
+def rerrStr : RErr → String
+  | .ok => "ok" | .eof => "eof" | .fail => "fail" | .closed => "closed"
+
+def parseFin : String → Option Fin
+  | "eof" => some .eof
+  | "fail" => some .fail
+  | _ => none
+
+def parseBool01 : Char → Option Bool
+  | '0' => some false
+  | '1' => some true
+  | _ => none
+
+/-- `c<0|1>r<0|1>s<0|1>` -/
+def parseCfg (s : String) : Option Cfg :=
+  match s.toList with
+  | ['c', a, 'r', b, 's', c] => do
+    let a ← parseBool01 a; let b ← parseBool01 b; let c ← parseBool01 c
+    pure { clientDisable := a, reqDisable := b, save := c }
+  | _ => none
+
+def parseOp (s : String) : Option Op :=
+  match s with
+  | "tb" => some .toBytes
+  | "ts" => some .toString
+  | "by" => some .bytes
+  | "st" => some .string
+  | "ra" => some .readAll
+  | "cl" => some .close
+  | _ =>
+    if s.startsWith "rd" then (s.drop 2).toNat?.map Op.read else none
+
+def parseOps (s : String) : Option (List Op) :=
+  if s == "-" then some [] else (s.splitOn ",").mapM parseOp
+
+def obsStr : Obs → String
+  | .data bs e => encodeHex bs ++ "/" ++ rerrStr e
+  | .cached none => "nil"
+  | .cached (some c) => encodeHex c
+  | .str bs => encodeHex bs
+  | .unit => "."
+
+def optStr : Option Bytes → String
+  | none => "nil"
+  | some b => encodeHex b
+
+/-- `c02ops <cfg> <status> <chunks> <fin> <ops>` →
+`err=<e> out=<hex|nil> obs=<o;o;…>` -/
+def laneOps : List String → String
+  | [cfg, status, chunks, fin, ops] =>
+    match parseCfg cfg, status.toNat?, decodeList chunks, parseFin fin, parseOps ops with
+    | some cfg, some st, some cks, some fin, some ops =>
+      let r := afterRoundTrip cfg st (Body.transport cks fin)
+      let e0 := match r.err with | none => "ok" | some e => rerrStr e
+      let (obs, _) := r.run ops
+      "err=" ++ e0 ++ " out=" ++ optStr r.out ++ " obs=" ++
+        (if obs.isEmpty then "-" else ";".intercalate (obs.map obsStr))
+    | _, _, _, _, _ => "bad-op"
+  | _ => "bad-op"
+
+def lanes : List (String × (List String → String)) := [
+  ("c02ops", laneOps)
+]
 
 end Req.Driver.L.C02
